@@ -12,7 +12,7 @@ open Text
 structure CacheCfg where
   refreshInterval : Int
   ignorePrerelease : Bool
-deriving Repr, Inhabited
+deriving Repr, Inhabited, DecidableEq
 
 namespace Cache
 open Db
